@@ -297,21 +297,24 @@ def stereo_mol_graph_to_rdmol(
 
 
         elif a_stereo is not None and isinstance(a_stereo, Octahedral):
-            for rd_n in rd_atom.GetNeighbors():
-                mol.RemoveBond(rd_n.GetIdx(), atom_idx)
-
-            for a in (1, 5, 6, 3, 4, 2):
-                a = a_stereo.atoms[a]
-                mol.AddBond(
-                    atom_idx,
-                    map_num_idx_dict[a],
-                )
             rd_atom.SetChiralTag(Chem.ChiralType.CHI_OCTAHEDRAL)
             rd_atom.SetHybridization(Chem.HybridizationType.SP3D2)
-            if a_stereo.parity == 1:
-                rd_atom.SetUnsignedProp("_chiralPermutation", 1)
-            elif a_stereo.parity == -1:
-                rd_atom.SetUnsignedProp("_chiralPermutation", 2)
+            if a_stereo.parity is not None:
+                # The bonds are not reordered (this would change the
+                # neighbor order of the bonded atoms and invalidate their
+                # stereo). Instead the permutation is chosen that gives this
+                # stereo for the present neighbor order on import.
+                from stereomolgraph.rdmol2graph import RDMol2StereoMolGraph
+
+                neighbors = tuple([idx_map_num_dict[nbr.GetIdx()]
+                                   for nbr in rd_atom.GetNeighbors()])
+                oct_orders = (
+                    RDMol2StereoMolGraph._oct_atom_order_permutation_dict)
+                for oct_perm, oct_order in oct_orders.items():
+                    oct_atoms = (atom, *[neighbors[i] for i in oct_order])
+                    if Octahedral(oct_atoms, 1) == a_stereo:
+                        rd_atom.SetUnsignedProp("_chiralPermutation", oct_perm)
+                        break
 
     for b_stereo in (bs for bs in graph.bond_stereo.values() if bs):
         a1, a2 = b_stereo.atoms[2], b_stereo.atoms[3]
